@@ -158,7 +158,16 @@ package dnsserver
 
 // ---- the query handler's decision skeleton (C01, C10, C12, C13, C19) -----------------------------------
 //@ func FBDNSDB.ServeDNSWithRCODE
-//@ updates cnt, nlogged, lastLogged, loggedAt, nlogfailed, nwritten, lastWritten, writtenAt, mut, closes, cached
+//@ updates cnt, nlogged, lastLogged, loggedAt, nlogfailed, nwritten, lastWritten, writtenAt, mut, closes, cached, authQ, authLoc, ansQ, ansCtl, ansType, ansLoc, soaCut, soaLoc, nsCut, nsLoc
+// which names are looked up (C01): the zone-cut walk is asked about the query name; a DS query at or below a
+// delegation is asked again about the QUERY NAME without its first label (the parent side of the name itself, not
+// of the cut that was found); answers are searched for the query name inside the cut the walk returned; SOA and NS
+// are those of that cut; all for the client's location.
+//@ after Reader.IsAuthoritative#0 assert[walk-name] authQ == packedQName && authLoc == loc
+//@ after Reader.IsAuthoritative#1 assert[ds-parent] ref(authQ) == ref(packedQName) && off(authQ) == off(packedQName) + packedQName[0] + 1 && len(authQ) == len(packedQName) - packedQName[0] - 1 && authLoc == loc
+//@ after Reader.FindAnswer#0 assert[answer-name] ansQ == packedQName && ansCtl == zoneCut && ansLoc == loc
+//@ after FindSOA#0 assert[soa-cut] soaCut == zoneCut && soaLoc == loc
+//@ after GetNs#0 assert[ns-cut] nsCut == zoneCut && nsLoc == loc
 //@ flag skip frame
 //@ requires h.logger != nil && h.stats != nil && w != nil && r != nil
 //@ requires freshzero(cached)
@@ -187,6 +196,14 @@ package dnsserver
 //@ before FBDNSDB.writeAndLog#3 assert[opt] (uf.edns0of(r) != nil) == (o != nil)
 //@ before FBDNSDB.writeAndLog#3 assert[ecs] o != nil ==> len(o.Option) == ite(ecs != nil, 1, 0)
 //@ before FBDNSDB.writeAndLog#3 assert[ecsobj] ecs == nil || ecs == uf.ecsof(r)
+// the client-subnet option the reply echoes is exactly as the location search left it -- on the cache-hit path and
+// on the computed path alike (C10: truthful scope; C12: a cached answer is answered like a computed one)
+//@ after Reader.FindLocation#0 let ecsScope = ite(ecs != nil, ecs.SourceScope, 0)
+//@ after Reader.FindLocation#0 let ecsSrc = ite(ecs != nil, ecs.SourceNetmask, 0)
+//@ after Reader.FindLocation#0 let ecsFam = ite(ecs != nil, ecs.Family, 0)
+//@ before FBDNSDB.writeAndLog#1 assert[hit-ecs-untouched] ecs != nil ==> ecs.SourceScope == ecsScope && ecs.SourceNetmask == ecsSrc && ecs.Family == ecsFam
+//@ before FBDNSDB.writeAndLog#2 assert[refused-ecs-untouched] ecs != nil ==> ecs.SourceScope == ecsScope && ecs.SourceNetmask == ecsSrc && ecs.Family == ecsFam
+//@ before FBDNSDB.writeAndLog#3 assert[ecs-untouched] ecs != nil ==> ecs.SourceScope == ecsScope && ecs.SourceNetmask == ecsSrc && ecs.Family == ecsFam
 //@ before Cache.Add#0 assert[cache-before-opt] o == nil
 //@ before Cache.Add#1 assert[cache-before-opt] o == nil
 
